@@ -121,6 +121,14 @@ FromSecrets(s) ==
     /\ pure' = TRUE
     /\ UNCHANGED <<gens, lastGen>>
 
+(* Persistence: SecretBundleState is written as the list of its secrets (impl Serialize,  *)
+(* :172-184) and read back through from_secrets (impl Deserialize, :186-219): the secrets   *)
+(* stay, `latest` is recomputed from whatever order the list had                           *)
+Reload ==
+    /\ bundle' = bundle
+    /\ SetLatest(bundle')
+    /\ UNCHANGED <<gens, lastGen, used, added, pure>>
+
 (* SecretBundle::generate, :241-257.  `w` is the wall clock (seconds) read by   *)
 (* GroupSecret::from_rng; `i` the id of the fresh random secret.  The secret is *)
 (* returned, not inserted.                                                     *)
